@@ -318,8 +318,10 @@ def run(ctx):
     ctx.require(run_fn is not None, "ConsoleApplication.run missing")
     rcfg = ctx.cfg(run_fn)
     # the local that the error report is rendered to
-    io_names = {a.id for c in q.calls(run_fn) if isinstance(c.func, ast.Attribute) and c.func.attr == "render" for a in c.args if isinstance(a, ast.Name)}
-    ctx.require(io_names, "run() no longer renders the error report to a local I/O")
+    # the local I/O of the run: what is handed to the command's handle() (and what the error report is rendered to)
+    io_names = {c.args[-1].id for c in q.calls(run_fn) if isinstance(c.func, ast.Attribute) and c.func.attr == "handle" and len(c.args) >= 2 and isinstance(c.args[-1], ast.Name)}
+    io_names |= {a.id for c in q.calls(run_fn) if isinstance(c.func, ast.Attribute) and c.func.attr == "render" for a in c.args if isinstance(a, ast.Name)}
+    ctx.require(io_names, "run() hands no local I/O to the command's handle()")
     built = [n for n in rcfg.nodes if n.kind == "stmt" and isinstance(n.ast, ast.Assign) and isinstance(n.ast.value, ast.Call)
              and any(isinstance(t, ast.Name) and t.id in io_names for t in n.ast.targets)]
     resolves = [n for c in q.calls(run_fn) if isinstance(c.func, ast.Attribute) and c.func.attr == "resolve_command" for n in rcfg.nodes_of(c)]
